@@ -3890,12 +3890,12 @@ dynamic_class_name_reference:
                     switch nn := n.(type) {
                         case *ast.ExprArrayDimFetch:
                             nn.Var = $$
-                            *$$.GetPosition() = *yylex.(*Parser).builder.NewNodesPosition($$, nn)
+                            nn.Position = yylex.(*Parser).builder.NewNodesPosition($$, nn)
                             $$ = nn
 
                         case *ast.ExprPropertyFetch:
                             nn.Var = $$
-                            *$$.GetPosition() = *yylex.(*Parser).builder.NewNodesPosition($$, nn)
+                            nn.Position = yylex.(*Parser).builder.NewNodesPosition($$, nn)
                             $$ = nn
                     }
                 }
@@ -3904,12 +3904,12 @@ dynamic_class_name_reference:
                     switch nn := n.(type) {
                         case *ast.ExprArrayDimFetch:
                             nn.Var = $$
-                            *$$.GetPosition() = *yylex.(*Parser).builder.NewNodesPosition($$, nn)
+                            nn.Position = yylex.(*Parser).builder.NewNodesPosition($$, nn)
                             $$ = nn
 
                         case *ast.ExprPropertyFetch:
                             nn.Var = $$
-                            *$$.GetPosition() = *yylex.(*Parser).builder.NewNodesPosition($$, nn)
+                            nn.Position = yylex.(*Parser).builder.NewNodesPosition($$, nn)
                             $$ = nn
                     }
                 }
